@@ -319,6 +319,40 @@ class Interp:
         if g in ("std::boxed::Box::<T>::new",):
             yield from self.eval(e["args"][0], env)
             return
+        # a local closure or a later-extracted helper: its body is evaluated on the argument values (`let next = || pairs.next().unwrap_or_else(..)`,
+        # `Self::translate_sorted_pair(pair, sort)`)
+        fpath = strip(e["f"]) if isinstance(e.get("f"), dict) else {}
+        target = None
+        if fpath.get("k") == "Path" and fpath.get("res", {}).get("r") == "local":
+            fv = env.get(fpath["res"]["id"])
+            if isinstance(fv, tuple) and fv[:1] == ("closure",):
+                target = (fv[1]["params"], fv[1]["body"], dict(fv[2]))
+        elif "inlined" in e and "inlined_params" in e:
+            target = (e["inlined_params"], e["inlined"], {})
+        if target is not None and getattr(self, "_depth", 0) < 6:
+            params, body, cenv0 = target
+            envs = [([], env)]
+            for a in e["args"]:
+                nxt = []
+                for vals, en in envs:
+                    for v, en2 in self.eval(a, en):
+                        nxt.append((vals + [v], en2))
+                envs = nxt
+            self._depth = getattr(self, "_depth", 0) + 1
+            try:
+                for vals, en in envs:
+                    cenv = dict(cenv0)
+                    cenv.update(en)       # captures are by reference: the closure sees the caller's locals as they are now
+                    for p_, a_ in zip(params, vals):
+                        m_, cenv = self.match_pat(p_, a_, cenv)
+                    for v, en3 in self.eval(body, cenv):
+                        # what the body did to the caller's locals (a `pairs` iterator advanced by the closure) is kept
+                        out_env = dict(en)
+                        out_env.update({k_: v_ for k_, v_ in en3.items() if k_ in en})
+                        yield v, out_env
+            finally:
+                self._depth -= 1
+            return
         # generic call: evaluate args for effects
         envs = [env]
         for a in e["args"]:
